@@ -2,6 +2,6 @@
 # vu.sh <unit> [repo] : extract a unit and run verus on it, human-readable errors (development helper)
 u=$1; repo=${2:-/repo}
 mkdir -p /verif/build/dev
-/verif/tools/vx/target/release/vx $repo /verif/units/$u /verif/prelude /verif/build/dev/$u.rs /verif/build/dev/$u.map.json || exit 3
+${VX:-/verif/tools/vx/target/release/vx} $repo /verif/units/$u /verif/prelude /verif/build/dev/$u.rs /verif/build/dev/$u.map.json || exit 3
 rl=$(python3 -c "import json;print(json.load(open('/verif/units/$u/unit.json')).get('rlimit',30))")
 cd /verif/build/dev && verus $u.rs --rlimit $rl --multiple-errors 20 --time 2>&1 | grep -v "^note: \|^$" | head -${VU_LINES:-100000}
